@@ -541,11 +541,48 @@ pub fn panic_msg(p: Box<dyn std::any::Any + Send>) -> String {
 }
 
 /// Run the real parser on `text` through the given back-end and API, recording everything.
+// ---------------------------------------------------------------------------------------------
+// stall watchdog: every call into the code under test made through the helpers below notes the input; a thread started
+// by `start_watchdog` ends the process with exit status 86 and a STALL line on stderr when no new call has started for
+// VERIF_STALL_SECS (60) seconds -- a spin of the real code is data about it, and must not wait for the tool time-out
+// ---------------------------------------------------------------------------------------------
+static PROGRESS: std::sync::atomic::AtomicU64 = std::sync::atomic::AtomicU64::new(0);
+static LAST_INPUT: std::sync::Mutex<String> = std::sync::Mutex::new(String::new());
+pub fn note_input(text: &str) {
+    PROGRESS.fetch_add(1, std::sync::atomic::Ordering::Relaxed);
+    if let Ok(mut g) = LAST_INPUT.try_lock() {
+        g.clear();
+        g.push_str(&text.chars().take(4000).collect::<String>());
+    }
+}
+pub fn start_watchdog() {
+    let limit: u64 = std::env::var("VERIF_STALL_SECS").ok().and_then(|x| x.parse().ok()).unwrap_or(60);
+    std::thread::spawn(move || {
+        let (mut last, mut since) = (u64::MAX, 0u64);
+        loop {
+            std::thread::sleep(std::time::Duration::from_secs(2));
+            let now = PROGRESS.load(std::sync::atomic::Ordering::Relaxed);
+            if now == last && now > 0 {
+                since += 2;
+                if since >= limit {
+                    let t = LAST_INPUT.lock().map(|g| g.clone()).unwrap_or_default();
+                    eprintln!("STALL {}", serde_json::json!({"secs": since, "t": t}));
+                    std::process::exit(86);
+                }
+            } else {
+                last = now;
+                since = 0;
+            }
+        }
+    });
+}
+
 pub fn run_parser(text: &str, be: Backend, api: Api) -> Run {
     run_parser_opts(text, be, api, false)
 }
 
 pub fn run_parser_opts(text: &str, be: Backend, api: Api, keep_tags: bool) -> Run {
+    note_input(text);
     let n = Rc::new(Cell::new(0u64));
     let len = text.chars().count();
     let cap = work_cap(len);
@@ -573,6 +610,7 @@ pub fn run_parser_opts(text: &str, be: Backend, api: Api, keep_tags: bool) -> Ru
 
 /// Plain, uncounted run on the string back-end (fast path used by most properties).
 pub fn run_str(text: &str) -> Run {
+    note_input(text);
     let mut run = Run::default();
     let len = text.len();
     let r = std::panic::catch_unwind(std::panic::AssertUnwindSafe(|| {
@@ -587,6 +625,7 @@ pub fn run_str(text: &str) -> Run {
     run
 }
 pub fn run_buf(text: &str) -> Run {
+    note_input(text);
     let mut run = Run::default();
     let len = text.len();
     let r = std::panic::catch_unwind(std::panic::AssertUnwindSafe(|| {
